@@ -180,6 +180,12 @@ class HttpProtocolHandler(BaseTcpServerHandler[HttpClientConnection]):
             if self.request.state != httpParserStates.COMPLETE:
                 if self._parse_first_request(data):
                     return True
+                # Bytes received along with, but after the first request,
+                # e.g. a pipelined request, are client data for the plugin.
+                if self.request.is_complete and self.request.buffer and self.plugin:
+                    remainder = self.request.buffer
+                    self.request.buffer = None
+                    self.plugin.on_client_data(remainder)
             # HttpProtocolHandlerPlugin.on_client_data
             # Can raise HttpProtocolException to tear down the connection
             elif self.plugin:
